@@ -142,6 +142,23 @@ SecpSMT.prose_x1_eq SecpSSWU
 SecpSMT.prose_gx1_eq SecpSSWU
 SecpSMT.sswu_sqrt_ratio SecpSSWU
 SecpSMT.exc_isSquare SecpSSWU
+Secp.Meta.history_refines SecpMeta
+Secp.Meta.history_refines_pre SecpMeta
+Secp.Meta.history_refines_guarded SecpMeta
+Secp.Meta.history_refines_prefix SecpMeta
+Secp.Meta.observations_agree SecpMeta
+Secp.Meta.observations_agree_pre SecpMeta
+Secp.Meta.observations_agree_prefix SecpMeta
+Secp.Meta.observations_agree_pre_prefix SecpMeta
+Secp.Meta.observations_agree_take SecpMeta
+Secp.Meta.frame_preserved SecpMeta
+Secp.Meta.frame_preserved_pre SecpMeta
+Secp.Meta.run_alone SecpMeta
+Secp.Meta.ops_commute SecpMeta
+Secp.Meta.unwritten_unchanged SecpMeta
+Secp.Meta.runOps_perm SecpMeta
+Secp.Meta.runOps_written SecpMeta
+Secp.Meta.any_order_same SecpMeta
 "
 # Lemma lines tagged `{lean: ASSUMED ...}` in the contract files: intentionally NOT proved.  They are never listed
 # under "theorems" (so nothing can read them as ok); stamp.json only names them under "assumed".
